@@ -57,12 +57,18 @@ def load_all(text):
     out = []
     olderr = sys.stderr
     sys.stderr = io.StringIO()
+    gen = Parsers.get_yaml_multidoc_data(y, LOG, text, literal=True)
     try:
-        for data, ok in Parsers.get_yaml_multidoc_data(y, LOG, text, literal=True):
+        for data, ok in gen:
             if not ok:
                 raise LoadError(text)
             out.append(data)
+    except LoadError:
+        raise
+    except Exception as e:
+        raise LoadError("%s: %s" % (type(e).__name__, e))
     finally:
+        gen.close()          # leave the loader's warnings.catch_warnings() block deterministically
         sys.stderr = olderr
     return out
 
